@@ -147,6 +147,47 @@ func (f *Frame) lookupVar(name string, b *ssa.BasicBlock, idx int, st *State) (*
 	return nil, false
 }
 
+// loopHeadValue: the header phi named name of the innermost loop that contains block b.
+func (f *Frame) loopHeadValue(name string, b *ssa.BasicBlock, cur *State) (*V, bool) {
+	var in *loopInfo
+	var phi *ssa.Phi
+	for _, li := range f.loops {
+		if !li.blocks[b] {
+			continue
+		}
+		for _, ins := range li.header.Instrs {
+			if ph, ok := ins.(*ssa.Phi); ok && ph.Comment == name {
+				if in == nil || len(li.blocks) < len(in.blocks) {
+					in, phi = li, ph
+				}
+			}
+		}
+	}
+	if phi != nil {
+		if _, ok := f.vals[phi]; ok {
+			return f.val(phi), true
+		}
+	}
+	// an addressable local (e.g. a struct-typed parameter that is assigned to): its cell, read in the
+	// state the innermost enclosing loop had at its head
+	var inner *loopInfo
+	for _, li := range f.loops {
+		if li.blocks[b] && (inner == nil || len(li.blocks) < len(inner.blocks)) {
+			inner = li
+		}
+	}
+	if inner != nil {
+		if cell, ok := f.lookupVarAddr(name); ok {
+			hs := inner.headSt
+			if hs == nil {
+				hs = cur // exploratory first pass over the loop body: obligations are not generated there
+			}
+			return f.load(hs, cell), true
+		}
+	}
+	return nil, false
+}
+
 // lookupVarAddr returns the cell of the (unique, already executed) addressable local variable name.
 func (f *Frame) lookupVarAddr(name string) (*V, bool) {
 	var only *varRef
@@ -466,6 +507,7 @@ func (f *Frame) enterLoop(li *loopInfo, cur *State, rc *runCtx) {
 			u.assume(cur, ctx.evalBool(inv.E))
 		}
 	}
+	li.headSt = cur.clone()
 }
 
 // backEdge checks that the invariants (and the automatic frame) are preserved.
